@@ -21,7 +21,8 @@ from vlib.core import Violation
 FAULTS = ["absent", "exit1_after_read", "exit1_immediately", "kill_after_read",
           "kill_before_read", "empty_ok", "exit0_without_reading", "slow_ok",
           "partial_then_kill", "partial_then_exit1", "garbage_exit3", "read_some_then_exit1",
-          "sigterm_after_read", "midchar_then_exit1", "midchar_then_kill", "midchar_exit0"]
+          "sigterm_after_read", "midchar_then_exit1", "midchar_then_kill", "midchar_exit0",
+          "echo_then_exit1"]
 DEADLINE_S = 40
 HARD_WATCHDOG_S = 150
 
@@ -72,6 +73,8 @@ def main(tier, replay, t0):
     small_names = ["pbr.wgsl", "minimal.wgsl", "unicode.wgsl"]
     shaders["big400.wgsl"] = big_shader(400)
     shaders["big1200.wgsl"] = big_shader(1200)
+    for k in (500, 620, 740, 860):
+        shaders["bigT%d.wgsl" % k] = big_shader(k)
     size_classes = {"small": small_names, "large": ["big400.wgsl", "big1200.wgsl"]}
     delays = (0, 50)
     if tier == "thorough":
@@ -198,13 +201,53 @@ def main(tier, replay, t0):
         os.remove(rp)
     runs.append(("real|options|delay0", onames, jp, rp, core.env(PATH=real_dir + ":/usr/bin:/bin")))
 
+    # concurrent calls whose texts are all above the pipe buffer (anything the calls share -
+    # a scratch file, a static buffer - would hand one caller another caller's module)
+    tnames = ["big400.wgsl", "big1200.wgsl"] + ["bigT%d.wgsl" % k for k in (500, 620, 740, 860)]
+    for tag, pth in (("real", real_dir + ":/usr/bin:/bin"),
+                     ("slow_ok", os.path.join(core.VERIF, "stubs", "slow_ok"))):
+        cell = "%s|threads6|delay0" % tag
+        jp = os.path.join(work, "threads_%s.jobs.jsonl" % tag)
+        rp = os.path.join(work, "threads_%s.res.jsonl" % tag)
+        with open(jp, "w") as f:
+            for n in tnames:
+                f.write(json.dumps({"id": n, "source": shaders[n], "opt": {"fmt": True, "en": True},
+                                    "canon": True}) + "\n")
+        if os.path.exists(rp):
+            os.remove(rp)
+        runs.append((cell, tnames, jp, rp, core.env(PATH=pth, VERIF_REAL_RUSTFMT=real),
+                     ["--threads", "6"]))
+    # history on one thread: a call whose formatter printed a lot and then failed, followed by
+    # a call with a healthy formatter and a SHORTER text (and the other way round)
+    good = real_dir + ":/usr/bin:/bin"
+    stub = lambda s_: os.path.join(core.VERIF, "stubs", s_)  # noqa: E731
+    seq = [("big1200.wgsl", stub("echo_then_exit1")), ("minimal.wgsl", good),
+           ("big400.wgsl", stub("partial_then_kill")), ("unicode.wgsl", good),
+           ("pbr.wgsl", stub("echo_then_exit1")), ("bigT500.wgsl", good),
+           ("bigT860.wgsl", stub("garbage_exit3")), ("bigT620.wgsl", stub("empty_ok")),
+           ("bigT740.wgsl", good)]
+    seq = [(n, p_) for (n, p_) in seq if n in usable or n.startswith("bigT")]
+    hnames = [n for n, _ in seq]
+    jp = os.path.join(work, "history.jobs.jsonl")
+    rp = os.path.join(work, "history.res.jsonl")
+    with open(jp, "w") as f:
+        for n, p_ in seq:
+            f.write(json.dumps({"id": n, "source": shaders[n], "opt": {"fmt": True, "en": True},
+                                "canon": True, "set_env": {"PATH": p_}}) + "\n")
+    if os.path.exists(rp):
+        os.remove(rp)
+    runs.append(("history|sequence|delay0", hnames, jp, rp,
+                 core.env(PATH=good, VERIF_REAL_RUSTFMT=real)))
+
     active = []
     queue = list(runs)
     finished = {}
     while queue or active:
         while queue and len(active) < core.NCPU:
-            cell, names, jp, rp, e = queue.pop(0)
-            p = subprocess.Popen([binp, "run", jp, rp], env=e, stdout=subprocess.DEVNULL,
+            cell, names, jp, rp, e = queue.pop(0)[:5]
+            extra = [x for x in runs if x[0] == cell][0][5:]
+            p = subprocess.Popen([binp, "run", jp, rp] + (extra[0] if extra else []), env=e,
+                                 stdout=subprocess.DEVNULL,
                                  stderr=subprocess.PIPE, text=True)
             active.append([cell, names, rp, p, time.time(), None])
         time.sleep(0.05)
@@ -217,7 +260,8 @@ def main(tier, replay, t0):
                     rc, p.stderr.read()[-500:]), names, rp)
                 continue
             age = time.time() - ts
-            budget = DEADLINE_S * (3 if cell.startswith("real|") or "slow_ok" in cell else 1)
+            budget = DEADLINE_S * (3 if cell.startswith(("real|", "history|")) or "slow_ok" in cell
+                                   else 1)
             if age > budget:
                 # classify: blocked (idle CPU, incl. its children) => hang; busy => inconclusive
                 pids = [p.pid] + children_of(p.pid)
@@ -269,7 +313,7 @@ def main(tier, replay, t0):
         if len(samples) < 8 and cell.split("|")[0] in ("kill_before_read", "empty_ok", "absent",
                                                        "read_some_then_exit1"):
             samples.append({"cell": cell, "outcome": outcome})
-    expected_cells = len(FAULTS) * 2 * len(delays) + len(delays) + 1
+    expected_cells = len(FAULTS) * 2 * len(delays) + len(delays) + 1 + 3
     if len(cells) != expected_cells:
         inconclusive.append("only %d of %d cells ran" % (len(cells), expected_cells))
     core.finish("C19", tier, "fault_enumeration", t0, viol, {
